@@ -93,9 +93,15 @@ func (encryptor *HashQuery) OnQuery(ctx context.Context, query mysql.OnQueryObje
 			continue
 		}
 
+		// substr(column, 1, <HMAC_size>) written by the client itself: nothing to rewrite
+		lColName, ok := item.Expr.Left.(*sqlparser.ColName)
+		if !ok {
+			continue
+		}
+
 		// column = 'value' ===> substring(column, 1, <HMAC_size>) = 'value'
 		item.Expr.Left = &sqlparser.SubstrExpr{
-			Name: item.Expr.Left.(*sqlparser.ColName),
+			Name: lColName,
 			From: sqlparser.NewIntVal([]byte{'1'}),
 			To:   sqlparser.NewIntVal(hashSize),
 		}
